@@ -86,3 +86,44 @@ package symbols
 //@   loop 2 invariant forall k int :: 0 <= k && k < rangeindex + 1 ==> optionalArgs[k] is ast.ApplyFn && len((optionalArgs[k] as ast.ApplyFn).Args) == 2
 //@   loop 2 atexit forall k int :: 0 <= k && k < len(optionalArgs) ==> optionalArgs[k] is ast.ApplyFn && len((optionalArgs[k] as ast.ApplyFn).Args) == 2
 //@   guard return in loop 2: err != nil
+
+// ---- C12: a lower bound has no member outside its inputs -------------------------------------------------------
+// member(ctx, t, c): constant c is a member of type expression t (abstract). ASSUMED about it: equal expressions
+// have equal members; /any has every member; a union has at least the members of its alternatives and the empty
+// type has none; a type variable has the members of its bound. ASSUMED contracts: SetConforms is sound for
+// membership (the constant/constant part is proved above), a member of UpperBound of a list is a member of some element of the list.
+//@ spec func member(ctx map[ast.Variable]ast.BaseTerm, t ast.BaseTerm, c ast.Constant) bool
+//@ axiom memberEq(ctx map[ast.Variable]ast.BaseTerm, a ast.BaseTerm, b ast.BaseTerm, c ast.Constant): ast.termEq(a, b) ==> member(ctx, a, c) == member(ctx, b, c)
+//@   auto
+//@ axiom memberAny(ctx map[ast.Variable]ast.BaseTerm, c ast.Constant): member(ctx, ast.AnyBound, c)
+//@   auto
+//@ axiom memberUnion(ctx map[ast.Variable]ast.BaseTerm, u ast.ApplyFn, c ast.Constant, k int): u.Function == UnionType && 0 <= k && k < len(u.Args) && member(ctx, u.Args[k], c) ==> member(ctx, u, c)
+//@   auto
+//@ axiom memberEmpty(ctx map[ast.Variable]ast.BaseTerm, c ast.Constant): !member(ctx, EmptyType, c)
+//@   auto
+//@ axiom memberVar(ctx map[ast.Variable]ast.BaseTerm, v ast.Variable, c ast.Constant): v in ctx ==> member(ctx, v, c) == member(ctx, ctx[v], c)
+//@   auto
+
+//@ func SetConforms(typeCtx, left, right)
+//@   trusted
+//@   modifies nothing
+//@   ensures result ==> (forall c ast.Constant :: member(typeCtx, left, c) ==> member(typeCtx, right, c))
+
+//@ func UpperBound(typeCtx, typeExprs)
+//@   trusted
+//@   modifies nothing
+//@   ensures forall c ast.Constant :: member(typeCtx, result, c) ==> (exists k int :: 0 <= k && k < len(typeExprs) && member(typeCtx, typeExprs[k], c))
+
+//@ spec func within(ctx map[ast.Variable]ast.BaseTerm, r ast.BaseTerm, a ast.BaseTerm, b ast.BaseTerm) bool = forall c ast.Constant :: member(ctx, r, c) ==> member(ctx, a, c) && member(ctx, b, c)
+//@ func intersectType(typeCtx, a, b)
+//@   opt nosafety
+//@   modifies nothing
+//@   ensures within(typeCtx, result, a, b)
+//@   loop 1 invariant forall k int :: 0 <= k && k < len(res) ==> within(typeCtx, res[k], a, b)
+//@   loop 2 invariant forall k int :: 0 <= k && k < len(res#2) ==> within(typeCtx, res#2[k], a, b)
+
+//@ func LowerBound(typeCtx, typeExprs)
+//@   opt nosafety
+//@   modifies nothing
+//@   ensures forall j int, c ast.Constant :: 0 <= j && j < len(typeExprs) && member(typeCtx, result, c) ==> member(typeCtx, typeExprs[j], c)
+//@   loop 1 invariant forall j int, c ast.Constant :: 0 <= j && j < rangeindex + 1 && member(typeCtx, typeExpr, c) ==> member(typeCtx, typeExprs[j], c)
